@@ -110,20 +110,7 @@ fn spin_range(def: &options::UciOptionType) -> (usize, usize) {
     }
 }
 
-//@ obligation: C13.setoption.arm_applies_value
-//@ property: C13
-//@ domain: bounded(option values: decimal strings of 1..=4 digits -- covers every advertised value 0..=1024 and 0..=1000)
-//@ functions: engine/uci/mod.rs::Uci::execute
-//@ timeout: 1800
-//@ mem_gb: 8
-//@ note: the whole setoption arm for Hash / Threads / Move Overhead and an unknown option name, whether or not a search holds the persistent-state lock: every value inside the ADVERTISED range is accepted (Ok) and stored in the engine options; for Hash the table is resized to exactly that value when the lock is free, and exactly one error is reported (nothing resized) when a search holds it -- the arm never blocks on the lock; an unknown option name is an error; the arm never panics
-//@ assumes: options::*Option::set are the real functions; std::fmt::format stubbed (message texts not examined); what resize() does is C19.tt.resize_wf
-#[kani::proof]
-#[kani::unwind(8)]
-#[kani::stub(std::fmt::format, fmt_stub)]
-fn vk_c13_setoption_arm_applies_value() {
-    let which: u8 = kani::any();
-    kani::assume(which < 4);
+fn check_arm(which: u8) {
     let name = GStr(match which {
         0 => options::HashOption::NAME,
         1 => options::ThreadsOption::NAME,
@@ -159,8 +146,8 @@ fn vk_c13_setoption_arm_applies_value() {
     };
     let r = uci.setoption_arm(&name, &value);
     let busy = unsafe { TRY_LOCK_BUSY };
-    kani::cover!(which == 0 && busy && v == 1024);
-    kani::cover!(which == 2 && v == 1000);
+    kani::cover!(busy && v == 1000);
+    kani::cover!(!busy && v == 0);
     if which == 0 {
         let (lo, hi) = spin_range(&options::HashOption::DEF);
         if lo <= v && v <= hi {
@@ -191,13 +178,74 @@ fn vk_c13_setoption_arm_applies_value() {
     std::mem::forget(r);
 }
 
+
+//@ obligation: C13.setoption.arm.hash
+//@ property: C13
+//@ domain: bounded(option values: decimal strings of 1..=4 digits -- covers every advertised value 0..=1024 and 0..=1000)
+//@ functions: engine/uci/mod.rs::Uci::execute
+//@ timeout: 1800
+//@ mem_gb: 8
+//@ note: the whole setoption arm for `Hash`, whether or not a search holds the persistent-state lock: every value inside the ADVERTISED range is accepted (Ok) and stored in the engine options; for Hash the table is resized to exactly that value when the lock is free, and exactly one error is reported (nothing resized) when a search holds it -- the arm never blocks on the lock; an unknown option name is an error; the arm never panics
+//@ assumes: options::*Option::set are the real functions; std::fmt::format stubbed (message texts not examined); what resize() does is C19.tt.resize_wf
+#[kani::proof]
+#[kani::unwind(16)]
+#[kani::stub(std::fmt::format, fmt_stub)]
+fn vk_c13_setoption_arm_hash() {
+    check_arm(0);
+}
+
+//@ obligation: C13.setoption.arm.threads
+//@ property: C13
+//@ domain: bounded(option values: decimal strings of 1..=4 digits -- covers every advertised value 0..=1024 and 0..=1000)
+//@ functions: engine/uci/mod.rs::Uci::execute
+//@ timeout: 1800
+//@ mem_gb: 8
+//@ note: the whole setoption arm for `Threads`, whether or not a search holds the persistent-state lock: every value inside the ADVERTISED range is accepted (Ok) and stored in the engine options; for Hash the table is resized to exactly that value when the lock is free, and exactly one error is reported (nothing resized) when a search holds it -- the arm never blocks on the lock; an unknown option name is an error; the arm never panics
+//@ assumes: options::*Option::set are the real functions; std::fmt::format stubbed (message texts not examined); what resize() does is C19.tt.resize_wf
+#[kani::proof]
+#[kani::unwind(16)]
+#[kani::stub(std::fmt::format, fmt_stub)]
+fn vk_c13_setoption_arm_threads() {
+    check_arm(1);
+}
+
+//@ obligation: C13.setoption.arm.move_overhead
+//@ property: C13
+//@ domain: bounded(option values: decimal strings of 1..=4 digits -- covers every advertised value 0..=1024 and 0..=1000)
+//@ functions: engine/uci/mod.rs::Uci::execute
+//@ timeout: 1800
+//@ mem_gb: 8
+//@ note: the whole setoption arm for `Move Overhead`, whether or not a search holds the persistent-state lock: every value inside the ADVERTISED range is accepted (Ok) and stored in the engine options; for Hash the table is resized to exactly that value when the lock is free, and exactly one error is reported (nothing resized) when a search holds it -- the arm never blocks on the lock; an unknown option name is an error; the arm never panics
+//@ assumes: options::*Option::set are the real functions; std::fmt::format stubbed (message texts not examined); what resize() does is C19.tt.resize_wf
+#[kani::proof]
+#[kani::unwind(16)]
+#[kani::stub(std::fmt::format, fmt_stub)]
+fn vk_c13_setoption_arm_move_overhead() {
+    check_arm(2);
+}
+
+//@ obligation: C13.setoption.arm.unknown
+//@ property: C13
+//@ domain: bounded(option values: decimal strings of 1..=4 digits -- covers every advertised value 0..=1024 and 0..=1000)
+//@ functions: engine/uci/mod.rs::Uci::execute
+//@ timeout: 1800
+//@ mem_gb: 8
+//@ note: the whole setoption arm for an unknown option name, whether or not a search holds the persistent-state lock: every value inside the ADVERTISED range is accepted (Ok) and stored in the engine options; for Hash the table is resized to exactly that value when the lock is free, and exactly one error is reported (nothing resized) when a search holds it -- the arm never blocks on the lock; an unknown option name is an error; the arm never panics
+//@ assumes: options::*Option::set are the real functions; std::fmt::format stubbed (message texts not examined); what resize() does is C19.tt.resize_wf
+#[kani::proof]
+#[kani::unwind(16)]
+#[kani::stub(std::fmt::format, fmt_stub)]
+fn vk_c13_setoption_arm_unknown() {
+    check_arm(3);
+}
+
 //@ obligation: C13.canary.setoption_arm
 //@ property: C13
 //@ canary: true
 //@ timeout: 1800
 //@ mem_gb: 8
 #[kani::proof]
-#[kani::unwind(8)]
+#[kani::unwind(16)]
 #[kani::stub(std::fmt::format, fmt_stub)]
 fn vk_c13_canary_setoption_arm() {
     let name = GStr(options::HashOption::NAME);
